@@ -357,9 +357,19 @@ class Crazyflie():
             raise Exception('Data part of packet is too large')
 
         self._send_lock.acquire()
-        if self.link is not None:
+        try:
+            self._send_packet_locked(pk, expected_reply, resend, timeout)
+        finally:
+            self._sending_thread = None
+            self._send_lock.release()
+
+    def _send_packet_locked(self, pk, expected_reply, resend, timeout):
+        # The link can be set to None by close_link() or a link error at any time,
+        # work on a local reference
+        link = self.link
+        if link is not None:
             if len(expected_reply) > 0 and not resend and \
-                    self.link.needs_resending:
+                    link.needs_resending:
                 pattern = (pk.header,) + expected_reply
                 logger.debug(
                     'Sending packet and expecting the %s pattern back',
@@ -385,10 +395,9 @@ class Crazyflie():
                     logger.debug('Resend requested, but no pattern found: %s',
                                  self._answer_patterns)
             self._sending_thread = current_thread()
-            self.link.send_packet(pk)
+            link.send_packet(pk)
             self._sending_thread = None
             self.packet_sent.call(pk)
-        self._send_lock.release()
 
     def is_called_by_incoming_handler_thread(self):
         return current_thread() == self.incoming
